@@ -100,6 +100,12 @@ func New(prop string) *Run {
 		}
 	}
 	r.loadFindings()
+	// Replays of an earlier run at this seed would be mistaken for this run's.
+	if old, _ := filepath.Glob(filepath.Join(Root, "replays", fmt.Sprintf("%s-%d-*.json", r.Prop, r.Seed))); len(old) > 0 {
+		for _, f := range old {
+			os.Remove(f)
+		}
+	}
 	return r
 }
 
